@@ -241,6 +241,8 @@ class Goebner:
             rhs = self._to_sympy_term(t.right)
             if lhs is None or rhs is None:
                 return None
+            if t.operator_type in (BinaryOperator.Division, BinaryOperator.Modulo) and rhs == 0:
+                return None  # undefined for clingo as well: leave the literal alone
             if t.operator_type == BinaryOperator.Division:
                 return cast(Expr, floor(lhs / rhs))
             if t.operator_type == BinaryOperator.Minus:
